@@ -137,3 +137,13 @@ def requiredAux (g : SG) (nodes : List Nat) : List (List Nat) → List Nat → L
 
 def required (g : SG) (nodes : List Nat) : List (List (Nat × List Nat)) :=
   requiredAux g nodes (offlineStages g nodes).1 []
+
+/-- for the driver: what every forward node of every stage receives (`none`: overwritten slot) -/
+def deliveredAllAux (g : SG) : List Nat → List (List Nat × List Nat) → List (Nat × Option (List Nat))
+  | _, [] => []
+  | prevSub, (tr, fw) :: rest =>
+    let curSub := tr ++ fw
+    (fw.map fun c => (c, delivered g prevSub curSub fw c)) ++ deliveredAllAux g curSub rest
+
+def deliveredAll (g : SG) (nodes : List Nat) : List (Nat × Option (List Nat)) :=
+  deliveredAllAux g [] (splitStages g (offlineStages g nodes).1 [])
